@@ -113,10 +113,12 @@ def gen_offs_cases(ctx, count, nbs=(1, 2, 3), prefix="o"):
             v0 = f32(rng.choice([0, 0, 1e4, 4.5e4, -2e4]))
             kind, rfpar = "sin", [f32(rng.choice([1e-3, 2.3e-4, 7.7e-3])), vrf, f32(rng.choice([5e8, 1.3e9])), v0]
         c = rng.random()
-        if c < 0.3:
+        if c < 0.25:
             slip = [a]
-        elif c < 0.5:
+        elif c < 0.4:
             slip = [a, 0.0, 0.0]
+        elif c < 0.55:
+            slip = [a, f32(a * rng.uniform(-3, 3))]          # two entries: the accumulation loop runs over slip.size()
         else:
             slip = [a, f32(a * rng.uniform(-3, 3)), f32(a * rng.uniform(-20, 20))]
         s = RFSetup("%s%d" % (prefix, i), n, nb, it, qmin, qmax, qscale, pmin, pmax, pscale, kind, rfpar, slip, E0)
@@ -155,16 +157,37 @@ def model_offs_text(s, im):
     return " ".join(tk) + "\n"
 
 
+def model_gen_text(s, im):
+    """input of the GENERATED model (family rfgen: Gen/Gen_RFDrift.v run by Model/RFDriftGen.v): the constructor
+    arguments themselves, the scales and constants, and from the implementation only the transcendental values
+    (tan(angle), asin(V0/V_RF) = _syncphase, the sine samples)"""
+    t, bl, sync = [parse_c(x) for x in im["rfconst"][0]]
+    scm, sce = [parse_c(x) for x in im["scales"][0]]
+    c, tp = [parse_c(x) for x in im["consts"][0]]
+    tk = ["genoffs", s.cid + ".g", str(s.n), str(s.nb), qtok(Fraction(s.qmin)), qtok(Fraction(s.qmax)),
+          qtok(Fraction(s.pmin)), qtok(Fraction(s.pmax)), qtok(scm), qtok(sce), qtok(c), qtok(tp), s.kind]
+    tk += [qtok(Fraction(v)) for v in s.rfpar]
+    tk += [qtok(t), qtok(sync)] + [qtok(parse_c(x)) for x in im["sinv"][0]]
+    tk += ["1", qtok(Fraction(s.calc[0])), qtok(Fraction(s.calc[1]))] if s.calc else ["0"]
+    tk += [str(len(s.slip))] + [qtok(Fraction(v)) for v in s.slip] + [qtok(Fraction(s.E0))]
+    return " ".join(tk) + "\n"
+
+
 def run_offs(ctx, cases):
+    """-> (impl, model): model[cid] holds the output of the hand-written model (axis, rf, drift) and, merged in, of the
+    generated model (gconst, grf, gdrift, gbuilt)"""
     tg = ctx.build(harness=("impl_rf",))
     rc, out, err = run_driver(tg["impl_rf"], "".join(impl_offs_text(s) for s in cases))
     if rc != 0:
         raise RuntimeError("impl_rf failed rc=%d: %s" % (rc, err[-1500:]))
     impl = parse_cases(out)
-    rc, out, err = run_driver(vp_coq.model_path("rf"), "".join(model_offs_text(s, impl[s.cid]) for s in cases))
+    rc, out, err = run_driver(vp_coq.model_path("rf"), "".join(model_offs_text(s, impl[s.cid]) + model_gen_text(s, impl[s.cid]) for s in cases),
+                              timeout=1200)
     if rc != 0:
         raise RuntimeError("model_rf failed rc=%d: %s" % (rc, err[-1500:]))
     model = parse_cases(out)
+    for s in cases:
+        model[s.cid].update(model.get(s.cid + ".g", {}))
     return impl, model
 
 
@@ -192,35 +215,56 @@ def compare_offs(s, im, mo):
         dis.append(("offset-size", dict(impl=sizes, expected=n * nb)))
         return dis
     rf_i = [parse_c(x) for x in im["rf"][0]]
-    rf_m = [parse_q(x) for x in mo["rf"][0]]
     dr_i = [parse_c(x) for x in im["drift"][0]]
-    dr_m = [parse_q(x) for x in mo["drift"][0]]
     phase, ampl = (s.calc if s.calc else (float(sync), 1.0))
     ampl = Fraction(ampl)
     sinv = [parse_c(x) for x in im["sinv"][0]]
-    for i in range(n * nb):
-        x = i % n
-        if s.kind == "lin":
-            phaseoffs = Fraction(f32(float(sync) - phase))
-            tol = abs(ampl) * (abs(t) * tolzb[0] + 4 * E24 * abs(t) * (abs(zb0m) + x + 1)
-                               + 6 * E24 * abs(t * phaseoffs / (bl * d0m))) + 2 * E24 * abs(rf_m[i])
-        else:
-            term = abs(Fraction(s.rfpar[0])) * (abs(ampl * Fraction(s.rfpar[1]) * sinv[x]) + abs(Fraction(s.rfpar[3]))) / (d1m * scale1)
-            tol = 10 * E24 * term
-        if isinstance(rf_i[i], str) or abs(rf_i[i] - rf_m[i]) > tol:
-            dis.append(("rf-offset", dict(i=i, bunch=i // n, x=x, impl=str(rf_i[i]), model=str(rf_m[i]), tol=str(tol))))
-            if len(dis) > 6:
-                return dis
-    for i in range(n * nb):
-        y = i % n
-        pabs = abs(Fraction(s.pmin)) + y * d1m
-        r = pabs * scale1 / Fraction(s.E0)
-        cond = sum(abs(Fraction(sl)) * pabs * r ** k for k, sl in enumerate(s.slip)) / d0m
-        tol = (8 + 6 * len(s.slip)) * E24 * cond
-        if isinstance(dr_i[i], str) or abs(dr_i[i] - dr_m[i]) > tol:
-            dis.append(("drift-offset", dict(i=i, bunch=i // n, y=y, impl=str(dr_i[i]), model=str(dr_m[i]), tol=str(tol))))
-            if len(dis) > 6:
-                return dis
+
+    def vectors(rf_m, dr_m, pre):
+        """both offset vectors of the implementation, entry by entry, against one model's"""
+        if len(rf_m) != n * nb or len(dr_m) != n * nb:
+            dis.append((pre + "offset-size", dict(model=[len(rf_m), len(dr_m)], expected=n * nb)))
+            return
+        for i in range(n * nb):
+            x = i % n
+            if s.kind == "lin":
+                phaseoffs = Fraction(f32(float(sync) - phase))
+                tol = abs(ampl) * (abs(t) * tolzb[0] + 4 * E24 * abs(t) * (abs(zb0m) + x + 1)
+                                   + 6 * E24 * abs(t * phaseoffs / (bl * d0m))) + 2 * E24 * abs(rf_m[i])
+            else:
+                term = abs(Fraction(s.rfpar[0])) * (abs(ampl * Fraction(s.rfpar[1]) * sinv[x]) + abs(Fraction(s.rfpar[3]))) / (d1m * scale1)
+                tol = 10 * E24 * term
+            if isinstance(rf_i[i], str) or abs(rf_i[i] - rf_m[i]) > tol:
+                dis.append((pre + "rf-offset", dict(i=i, bunch=i // n, x=x, impl=str(rf_i[i]), model=str(rf_m[i]), tol=str(tol))))
+                if len(dis) > 6:
+                    return
+        for i in range(n * nb):
+            y = i % n
+            pabs = abs(Fraction(s.pmin)) + y * d1m
+            r = pabs * scale1 / Fraction(s.E0)
+            cond = sum(abs(Fraction(sl)) * pabs * r ** k for k, sl in enumerate(s.slip)) / d0m
+            tol = (8 + 6 * len(s.slip)) * E24 * cond
+            if isinstance(dr_i[i], str) or abs(dr_i[i] - dr_m[i]) > tol:
+                dis.append((pre + "drift-offset", dict(i=i, bunch=i // n, y=y, impl=str(dr_i[i]), model=str(dr_m[i]), tol=str(tol))))
+                if len(dis) > 6:
+                    return
+    vectors([parse_q(x) for x in mo["rf"][0]], [parse_q(x) for x in mo["drift"][0]], "")
+    if len(dis) > 6:
+        return dis
+    # the model GENERATED from RFKickMap.cpp / DriftMap.cpp (Gen/Gen_RFDrift.v): the same vectors, the member values the
+    # generated initialisers give (_bl2phase: binary64 product of three factors, 3 roundings, stored as binary32: 2^-24 + 4*2^-53 relative), the table built
+    # from the final offsets on both sides
+    if "grf" not in mo:
+        dis.append(("gen-missing", dict(what="the generated model produced no output for this case")))
+        return dis
+    vectors([parse_q(x) for x in mo["grf"][0]], [parse_q(x) for x in mo["gdrift"][0]], "gen-")
+    gbl, gsync = [parse_q(x) for x in mo["gconst"][0]]
+    if abs(gbl - bl) > (E24 + 4 * Fraction(1, 2 ** 53)) * abs(gbl):
+        dis.append(("gen-bl2phase", dict(impl=str(bl), model=str(gbl))))
+    if s.kind == "lin" and gsync != sync:
+        dis.append(("gen-syncphase", dict(impl=str(sync), model=str(gsync))))
+    if [int(x) for x in mo["gbuilt"][0]] != [1, 1]:
+        dis.append(("gen-built", dict(model=mo["gbuilt"][0], what="in the generated statement order updateSM() does not follow the last write of _offset")))
     return dis
 
 
@@ -256,6 +300,53 @@ def oracle_offs(ctx, s, im):
                               observed=dict(x=x, offset=str(rf_i[x])), expected=exp, sig=dict(kind="rf", clause="sin-offsets"))
                 ok = False
                 break
+        a_sync = math.asin(s.rfpar[3] / s.rfpar[1]) if abs(s.rfpar[3]) <= abs(s.rfpar[1]) else None
+        if a_sync is not None and abs(float(sync) - a_sync) > 8 * 2.0 ** -24 * max(abs(a_sync), 2.0 ** -20):
+            ctx.violation("impl-oracle", "the synchronous phase of the sinusoidal RF map is not asin(V0/V_RF)", case=s.describe(),
+                          observed=float(sync), expected=a_sync, sig=dict(kind="rf", clause="syncphase"))
+            ok = False
+    if s.kind == "lin" and not isinstance(ax[0], str):
+        # the linear kick itself on the implementation's own axis facts: ampl*(tan(a)*(xc - x) + tan(a)*(sync - phase)/bl2phase/delta0);
+        # static map: tan(a)*(xc - x) - the rotation of C03 is this field (DESIGN 5/C03.2)
+        phase, ampl = (s.calc if s.calc else (float(sync), 1.0))
+        tt = math.tan(s.rfpar[0])
+        zb0, d0 = float(ax[0]), float(ax[1])
+        po = f32(float(sync) - phase)
+        for i in range(n * nb):
+            x = i % n
+            cst = tt * po / float(bl) / d0
+            exp = ampl * (tt * (zb0 - x) + cst)
+            tol = 12 * 2.0 ** -24 * abs(ampl) * (abs(tt) * (abs(zb0) + x + 1) + abs(cst)) + 2.0 ** -126
+            if isinstance(rf_i[i], str) or abs(float(rf_i[i]) - exp) > tol:
+                ctx.violation("impl-oracle", "linear RF kick offset is not ampl*(tan(angle)*(zerobin_x - x) + tan(angle)*(syncphase - phase)/bl2phase/delta_x)",
+                              case=dict(s.describe(), calc=s.calc), observed=dict(i=i, bunch=i // n, x=x, offset=str(rf_i[i])), expected=exp,
+                              sig=dict(kind="rf", clause="lin-offsets", multibunch=i >= n))
+                ok = False
+                break
+    # the drift field on the implementation's own axis facts: sum_k slip_k * p * (p*scale_E/E0)^k / delta_x, p = energy coordinate
+    pc = [parse_c(x) for x in im["p"][0]]
+    dr_i = [parse_c(x) for x in im["drift"][0]]
+    if not isinstance(ax[1], str) and not any(isinstance(v, str) for v in pc):
+        d0, sc1 = float(ax[1]), float(parse_c(im["scales"][0][1]))
+        for y in range(n):
+            p = float(pc[y])
+            r = p * sc1 / s.E0
+            exp = sum(sl * p * r ** k for k, sl in enumerate(s.slip)) / d0
+            cond = sum(abs(sl * p * r ** k) for k, sl in enumerate(s.slip)) / abs(d0)
+            tol = (10 + 6 * len(s.slip)) * 2.0 ** -24 * cond + 2.0 ** -126
+            if isinstance(dr_i[y], str) or abs(float(dr_i[y]) - exp) > tol:
+                ctx.violation("impl-oracle", "drift offset is not sum_k slip[k]*p*(p*scale/E0)^k / delta_x (p the energy coordinate of row y)",
+                              case=s.describe(), observed=dict(y=y, offset=str(dr_i[y])), expected=exp,
+                              sig=dict(kind="rf", clause="drift-offsets", nslip=len(s.slip), equal_spacing=ax[1] == ax[5]))
+                ok = False
+                break
+    # the table apply() interpolates with must have been built from the final offsets (updateSM() after the loops)
+    if "fresh" in im and [int(x) for x in im["fresh"][0]] != [1, 1]:
+        ctx.violation("impl-oracle", "the interpolation table of the %s map was not rebuilt after its offsets were written (updateSM() does not follow the loops)" %
+                      ("RF" if int(im["fresh"][0][0]) != 1 else "drift"), case=dict(s.describe(), calc=s.calc),
+                      observed=dict(fresh=im["fresh"][0]), expected="table = updateSM() of the current offsets",
+                      sig=dict(kind="rf", clause="table-fresh"))
+        ok = False
     # zero bin: coordinate at the (fractional) index zerobin is 0, by linear interpolation of at()
     for k, (zb, dl, mn) in enumerate([(ax[0], ax[1], ax[2]), (ax[4], ax[5], ax[6])]):
         if isinstance(zb, str):
